@@ -172,4 +172,19 @@ CHECKS = {
         "required_probes": ["valid_envelope_accepted", "forged_entries_replicated", "valid_entries_emitted"],
         "assumptions": COMMON_ASSUMPTIONS,
     },
+    "C01": {
+        "pkg": "pkg/secretstore",
+        "test": "TestVerifC01",
+        "level": "fault_enumeration",
+        "quick": {"procs": 32, "checks_per_proc": 12},
+        "thorough": {"procs": 64, "checks_per_proc": 150},
+        "rule": "one case = a three-party session (sender, receiver, Byzantine fellow member) on a contact / account / multi-member "
+                "group with 1-6 sealed payloads of sizes {0,1,2,31,32,33,255,4096,65536,random}; for the envelopes in flight: every "
+                "single-bit flip (all bits up to 2 KiB, 4096 seeded positions beyond), every pairwise field substitution, cross-group "
+                "replay, re-attribution to another device/counter by the Byzantine member and payloads forged under the sender's "
+                "genuine message key with five kinds of signature. non-trivial = at least one fault applied (always); distinct = "
+                "distinct hash of the session trace. scheduler_or_event_steps counts individual altered envelopes delivered.",
+        "required_probes": ["authentic_opened", "member_forgery_attempted"],
+        "assumptions": COMMON_ASSUMPTIONS + ["the emission point of MessageStore (GroupMessageEvent) is exercised by C08, here the observation point is the secret store API the message store calls"],
+    },
 }
